@@ -20,4 +20,6 @@ def check(repo, rep, tier):
     rep.run(re_.rule_program_keys, cm, rep, 'C05.F1')
     rep.run(rq.rule_values_never_inspected, em, rep, 'C05.F2')
     rep.run(rq.rule_combine_order, em, rep, 'C05.F3')
+    # what the compiler is given is the body as written: the visitor maps each operator to its node, nothing is simplified away
+    rep.run(rc.rule_operator_mapping, cm, rep, 'C05.G2')
     rep.run(rc.rule_compiler_bounded, cm, rep, 'C05.R2', depth=3, scope=3 if tier == 'thorough' else 2, combs=4 if tier == 'thorough' else 0)
